@@ -305,4 +305,77 @@ theorem inv_get (d0 d : Doc V) (hi : Inv d0 d) (id : Nat) : Inv d0 { d with st :
       · exact hi.cache_ok id' r h v
   · simpa using hi
 
+/-! ### reads of numbers of the original table that have no pending value -/
+
+/-- what such a number reads as: its value in the original document, unless it lives in an object stream
+    whose container has itself been given a pending value -/
+def resolveOld (d0 : Doc V) (touched : Nat → Bool) (j : Nat) : Rd V :=
+  match d0.st.refs[j]? with
+  | some (.stream sid _) => if touched sid then .other else resolve d0.st j
+  | _ => resolve d0.st j
+
+theorem objAt_base (d0 d : Doc V) (chain0) (_hb : BaseOK d0 chain0) (hi : Inv d0 d) (off : Nat) (h : off < d0.st.len) :
+    objAt d.st.objs off = objAt d0.st.objs off := by
+  obtain ⟨ext, a, b⟩ := hi.objs_ext
+  rw [a, objAt_append_old]
+  intro o ho; have := b o ho; omega
+
+theorem resolve_old (d0 d : Doc V) (chain0) (hb : BaseOK d0 chain0) (hi : Inv d0 d) (j : Nat)
+    (hj : j < d0.st.refs.length) (hc : chLookup d.st.changes j = none) :
+    resolve d.st j = resolveOld d0 (fun s => (chLookup d.st.changes s).isSome) j := by
+  have h0 : ∀ k, chLookup d0.st.changes k = none := by intro k; rw [hb.changes_nil]; rfl
+  simp only [resolve, resolveOld, hc, h0]
+  rw [hi.refs_old j hj hc]
+  cases he : d0.st.refs[j]? with
+  | none => rfl
+  | some e =>
+    cases e with
+    | raw pos g =>
+      simp only [readAt, hi.start_eq]
+      rw [objAt_base d0 d chain0 hb hi _ (hb.raw_lt j pos g he)]
+    | stream sid idx =>
+      simp only [readCompressed, h0]
+      rcases Option.eq_none_or_eq_some (chLookup d.st.changes sid) with hs | ⟨x, hs⟩
+      · simp only [hs, Option.isSome_none, Bool.false_eq_true, if_false]
+        have hsid := hb.stream_lt j sid idx he
+        rw [hi.refs_old sid hsid hs]
+        rcases Option.eq_none_or_eq_some (d0.st.refs[sid]?) with he2 | ⟨e2, he2⟩
+        · simp only [he2]
+        · simp only [he2]
+          cases e2 with
+          | raw pos g =>
+            simp only [hi.start_eq]
+            rw [objAt_base d0 d chain0 hb hi _ (hb.raw_lt sid pos g he2)]
+          | _ => rfl
+      · simp [hs]
+    | free n g => rfl
+    | promised => rfl
+    | invalid => rfl
+
+theorem resolveOld_untouched (d0 : Doc V) (touched : Nat → Bool) (j : Nat)
+    (h : ∀ sid idx, d0.st.refs[j]? = some (.stream sid idx) → touched sid = false) :
+    resolveOld d0 touched j = resolve d0.st j := by
+  unfold resolveOld
+  split
+  · rename_i sid idx he; rw [h sid idx he]; simp
+  · rfl
+
+/-- numbers of the original table without a pending value read as in the original document -/
+theorem resolve_untouched (d0 d : Doc V) (chain0) (hb : BaseOK d0 chain0) (hi : Inv d0 d) (j : Nat)
+    (hj : j < d0.st.refs.length) (hc : chLookup d.st.changes j = none)
+    (hcont : ∀ sid idx, d0.st.refs[j]? = some (.stream sid idx) → chLookup d.st.changes sid = none) :
+    resolve d.st j = resolve d0.st j := by
+  rw [resolve_old d0 d chain0 hb hi j hj hc, resolveOld_untouched]
+  intro sid idx he; simp [hcont sid idx he]
+
+/-- numbers allocated since the load that have no pending value are unfulfilled promises -/
+theorem resolve_new_pending (d0 d : Doc V) (hi : Inv d0 d) (j : Nat)
+    (hj : d0.st.refs.length ≤ j) (hc : chLookup d.st.changes j = none) :
+    resolve d.st j = .other ∨ resolve d.st j = .unspec := by
+  simp only [resolve, hc]
+  by_cases hlt : j < d.st.refs.length
+  · rw [hi.refs_new j hj hlt hc]; simp
+  · have : d.st.refs[j]? = none := by simp; omega
+    rw [this]; simp
+
 end Storage
